@@ -868,9 +868,9 @@ impl World {
                         let after = verif_hooks::verif_state(self.mem());
                         let ft = rel(after.hdr_footer_offset, Self::base(&after));
                         // the doctor's own probe may schedule rebuilds the options did not ask for
-                        // (e.g. a missing time index): observed through the WAL reset that follows every
-                        // rebuild (checkpointed sequence back to 0) and through an emptied vector index
-                        let probe_rebuild = after.hdr_wal_sequence == 0;
+                        // (e.g. a missing time index): observed through a time index that appeared and
+                        // through an emptied vector index
+                        let probe_rebuild = !before.time_index_present && after.time_index_present;
                         let vec_emptied = !before.vec_entries.is_empty() && after.vec_entries.is_empty();
                         (Ack::Ok, format!("doctor vac={} rt={} rl={} rv={} ftd={ftd} fta={ft} ftb={ft} fto={ft}", *vacuum as u8,
                             (*rebuild_time || probe_rebuild) as u8, *rebuild_lex as u8, (*rebuild_vec || vec_emptied) as u8))
